@@ -11,6 +11,7 @@ Interface (kept small; `Model/Rpc` of C01 imports this file):
 * `guardStep owner req` / `dispatchGuard`  — token test of `_handle_method_rpc_request` (generated / reference)
 * `Sys`, `Op`, `Out`, `step`, `run`        — one RPC object, any number of context instances and proxies;
                                              `proxyLock/Unlock/ForceUnlock/IsLocked/Call` mirror `QMI_RpcProxy`
+* `retryLoop`, `iters`, `proxyLockRetry`   — `lock(timeout > 0)`: the retry loop and its clock
 
 Python exceptions are values: an exception escaping a handler kills the worker thread
 (`_RpcThread.run` has no handler), after which no request is ever answered (`Sys.dead`).  On the current tree no
@@ -138,6 +139,8 @@ inductive Op
   | isLocked (p : Nat)
   | call (p : Nat) (nonblocking : Bool)
   | burn (ctx : Nat)       -- `make_unique_token()` consumed on behalf of some *other* object
+  | recreate               -- owning context: `remove_rpc_object(proxy)` then `make_rpc_object` under the same name
+  | stopCtx (ctx : Nat)    -- a client context stops (disconnects); its proxies are not used afterwards
   deriving DecidableEq, Repr
 
 inductive Out
@@ -263,6 +266,11 @@ def step (s : Sys) : Op → Sys × Out
     match s.ctxs[c]? with
     | none => (s, .bad)
     | some cx => ({ s with ctxs := s.ctxs.set c { cx with counter := cx.counter + 1 } }, .unit)
+  -- a new `_RpcThread` with `_locking_token = None` and a new object instance; proxies keep what they remember
+  | .recreate => ({ s with owner := none, dead := none, count := 0 }, .unit)
+  -- nothing on the server side reacts to a disconnect: the lock stays (documented: use `force_unlock()` if the proxy
+  -- that owns the lock no longer exists)
+  | .stopCtx _ => (s, .unit)
 
 def run (s : Sys) : List Op → Sys × List Out
   | [] => (s, [])
@@ -273,5 +281,34 @@ def run (s : Sys) : List Op → Sys × List Out
 
 /-- final state only -/
 def exec (s : Sys) (ops : List Op) : Sys := ops.foldl (fun s o => (step s o).1) s
+
+/-- loop of `QMI_RpcProxy.lock(timeout > 0)` after the token `my` has been made: one ACQUIRE per iteration with the
+*same* token; `envs` has one entry per iteration the clock allows: what the rest of the world does to the system while
+the proxy sleeps after a denied attempt.  Returns the state, the result and the number of requests sent. -/
+def retryLoop (p : Nat) (px : Proxy) (my : Token) : Sys → List (List Op) → Nat → Sys × Out × Nat
+  | s, [], n => (s, .bool false, n)
+  | s, env :: rest, n =>
+    match lockRequest s .acquire (some my) with
+    | (s2, none) => (s2, .hang, n + 1)
+    | (s2, some their) =>
+      if their = some my then (setProxyTok s2 p px (some my), .bool true, n + 1)
+      else retryLoop p px my (exec s2 env) rest (n + 1)
+
+/-- number of loop iterations the clock allows: `while (now - start) < timeout`, every iteration lasting
+`max period (dur i)` (the RPC round trip, or the 0.1 s the proxy sleeps up to); all in one unit (ms) -/
+def iters (timeout period : Nat) (dur : Nat → Nat) : (fuel elapsed i : Nat) → Nat
+  | 0, _, i => i
+  | fuel + 1, elapsed, i => if elapsed < timeout then iters timeout period dur fuel (elapsed + max period (dur i)) (i + 1) else i
+
+/-- `QMI_RpcProxy.lock(timeout > 0, lock_token=custom)`: the token is made once, then `retryLoop` -/
+def proxyLockRetry (s : Sys) (p : Nat) (custom : Option String) (envs : List (List Op)) : Sys × Out × Nat :=
+  match s.proxies[p]? with
+  | none => (s, .bad, 0)
+  | some px =>
+    match s.ctxs[px.ctx]? with
+    | none => (s, .bad, 0)
+    | some c =>
+      if reservedCustom custom then (s, .usage, 0) else
+      retryLoop p px (lockPre s p px c custom).2 (lockPre s p px c custom).1 envs 0
 
 end QmiModel.Lock
